@@ -7,7 +7,7 @@ id=$1; shift
 SRC=$(cd "$(dirname "$0")/.." && pwd)   # the framework copy this script belongs to (/verif, or a private clone of it)
 W=/tmp/iso_${id}_$$
 rm -rf $W; mkdir -p $W
-git -C /repo worktree add -q --detach $W/repo HEAD || exit 2
+git -C /repo worktree add -q --detach $W/repo ${SEEDREV:-HEAD} || exit 2
 git -C $W/repo apply $SRC/seeded/$id/patch.diff || { echo "patch does not apply"; git -C /repo worktree remove --force $W/repo; exit 2; }
 rsync -a --exclude .git --exclude '_build/cases' --exclude '_build/gencheck' --exclude replays $SRC/ $W/verif/
 sed -i "s|=> /repo|=> $W/repo|" $W/verif/harness/go.mod
